@@ -80,6 +80,17 @@ def check_program(prog: Dict[str, Any], acc: Acc):
                 outer.add(modified)
                 acc.count("unrolled_then_nested")
                 common.compare_times(built2, acc, "unrolled-nested", unrolled_model, case, circuit=outer)
+                # ... and under ANOTHER duration assignment of the same, already listed unrolled circuit (which member of a group ends last -
+                # hence where the next copy starts - may change; seeded change C01-r15 froze that choice in the links handed to the heads)
+                if prog.get("reassign_registry"):
+                    for k2, v2 in prog["reassign_registry"].items():
+                        built2.ctx.duration_registry.set_registry_at(k2, v2)
+                        built2.ctx.S.reg[k2] = v2
+                    stats3: Dict[str, int] = {}
+                    model3 = M.unroll(built2.top.mnodes, top_reps, built2.ctx.S, stats3)
+                    if not stats3.get("unroll_degenerate"):
+                        acc.count("unrolled_reread_after_registry_change")
+                        common.compare_times(built2, acc, "unrolled-reassigned", model3, case, circuit=modified)
                 # ... and so does the FLATTENED circuit (flatten turns relations to sub-circuits into group relations of any type): nested
                 # into an empty circuit it reports the schedule it reports itself (seeded change C01-r12: a copied group link fell back to
                 # FOLLOWED_BY).  Differential only: what flatten itself may change is C04 / C11 territory.
